@@ -129,7 +129,7 @@ func statusOf(o string) string {
 
 // ---- C08 ------------------------------------------------------------------------
 
-var c08Alphabet = []string{"a", "1", "\"", "`", "$", "(", ")", "[", "]", "{", "}", ".", ",", ":", ";", "?", "+", "-", "*", "/", "!", "~", "<", ">", "=", "|", "^", "&", "%", " ", "é", "䑁", "\\", "e", "'", "\n"}
+var c08Alphabet = []string{"\U0010ffff", "\U000e0001", "\U000f0000", "\\uDBFF\\uDFFF", "\\uDB40\\uDC01", "\u0007", "\u007f", "\ufffd", "a", "1", "\"", "`", "$", "(", ")", "[", "]", "{", "}", ".", ",", ":", ";", "?", "+", "-", "*", "/", "!", "~", "<", ">", "=", "|", "^", "&", "%", " ", "é", "䑁", "\\", "e", "'", "\n"}
 
 func runC08(c *ctx) {
 	c.rep.Rule = "byte strings: all strings up to length 3 over an alphabet with every operator-starting byte, quotes, a digit, letters, 2- and 3-byte runes; " +
@@ -192,7 +192,7 @@ func runC08(c *ctx) {
 	c.rep.Exhaustive = append(c.rep.Exhaustive, fmt.Sprintf("%d signatures function($x)<S>{$x}", ns))
 	// 3. seeds from the property text
 	for _, s := range []string{"function($x)<(>{$x}", "function($x)<!>{$x}", "!é", "[1.䑁]", "~é", "1.é", "1e", "1e+", "\"\\u+041\"", "\"\\ud800\"", "\"\\ud800\\udc00\"",
-		"\"\\udc00\"", "\"\\u12\"", "\"\\", "'\\", "/", "//", "//i", "//ms", "$match(\"a\", //i)", "/a", "/(/", "/[/]/", "a/ /b/", "`", "`a", "`a\nb`", "$", "$$", "$ $", "a b", "a..b", "[1..]", "[..1]", "1..2", "(", ")", "()", "(;)", "(a;)",
+		"\"\\udc00\"", "\"\\u12\"", "\"\U0010ffff\".a", "a.'\U000e0001'", "\"\\uDBFF\\uDFFF\".a", "\"\\uDB40\\uDC01\"", "$length(\"\U000f0000\")", "\"\U0010ffff\"", "\"\u0007\u007f\".b", "\"\ufffd\"", "{\"\ufffd\": 1}", "\"\"\\", "'\\", "/", "//", "//i", "//ms", "$match(\"a\", //i)", "/a", "/(/", "/[/]/", "a/ /b/", "`", "`a", "`a\nb`", "$", "$$", "$ $", "a b", "a..b", "[1..]", "[..1]", "1..2", "(", ")", "()", "(;)", "(a;)",
 		"{a}", "{a:}", "{:a}", "a{b:c}{d:e}", "a{b:c}[0]", "1.a", "a.1", "a.\"s\"", "true.a", "null.a", "function", "function()", "function(){", "function(a){1}", "function($a,$a){1}",
 		"function($a)<nn>{1}", "function($a,$b)<n>{1}", "λ($a){$a}", "a := 1", "$a := ", "$a :=", "? :", "a ? b :", "a ?", "|a|b|", "|a|b,c|", "|a|", "|a", "a ~>", "~> a", "a ^ b", "a^(", "a^()", "a^(<)", "a^(<b,>c)",
 		"- - 1", "--1", "-", "a and", "and and and", "or or or", "in in in", "a in", "\xff", "\xc3", "a\xffb", "\"\xff\"", "1\xff", "`\xff`", "/\xff/", "$\xff", "1e400", "1e-400", "0.0000000000000000000000000000001e400",
